@@ -31,6 +31,18 @@ CHECKS = {
     "C15": (MC, "explicit-state BFS over interleavings of registrations, queries and failing operations on the real database; differential oracle warm database vs fresh database with the same registrations",
             "All histories to depth 3 (quick) / 5 (thorough) over 9 registrations (two rejected) and 49 closed query terms (lookups, conversions, validity checks, construction, arithmetic, posc helpers, failing calls) run on a database rebuilt per history; the canonical outcome of every transition is compared with the outcome of the same operation on a fresh database that replayed only the registrations, and the public registry fingerprint is compared around every query.",
             "operations are closed terms (objects do not persist between steps); depth bound"),
+    "C05": (MC, "exhaustive enumeration of all cross-type inputs of the shipped table + every operation sequence up to a depth with a differential (rejected steps deleted) oracle",
+            "(a) all 501k cross-type (unit, category) pairs through the constructors, all cross-type unit pairs (quick: one representative target per foreign type, 294k; thorough: all 2.36M) through the conversions and every ordered pair of depth-2 derived states with different dimension vectors through + - < <= > >= must raise UnitsError/TypeError/ValueError; (b) EVERY sequence of length <= 3 (quick) / 4 (thorough) over 13 valid and 20 invalid operations on persistent operands is executed with no de-duplication: a rejected step leaves operands and registry unchanged and every step's outcome equals its outcome in the history with the rejected steps deleted.",
+            "dimensionless operands and the Unknown quantity type are exempt as the property says; depth bound"),
+    "C07": (MC, "explicit-state BFS over closed public operations on the real database; every quantity ever seen re-fingerprinted after every step; interning judged against a reference resolver",
+            "All histories to depth 3 (quick) / 4 (thorough) over 52 operations (creation in every form incl. legacy spelling, list/tuple composing maps, direct constructor, posc helpers; Scalar/Array/Quantity arithmetic; conversions; failing operations; copies; pickling; SetUnknownCaption) on posc with caches reset per history. After every step the fingerprint (all getters, hash, repr) of every tracked quantity must equal its first value, the equality partition must be stable, symmetric and agree with the denoted (category, unit, caption)/composing map, equal quantities hash equal, repeated interned requests return the identical object, copies are identical and pickles equal.",
+            "Quantity(category, unit) called directly only needs == and equal hash (it allocates by construction); depth bound"),
+    "C11": (MC, "worklist search to a fixpoint over FixedArray and Curve states on the real constructors and methods",
+            "From every constructor form x dimension 0..6 x length 0..6 x list/tuple/ndarray (plus CreateWithQuantity, CreateEmptyArray, category-only forms) the set of FixedArray states (dimension, container kind, unit, category) is closed under CreateCopy variants, arithmetic with numbers/Arrays/FixedArrays/ndarrays of every length, pickle, ChangingIndex (every index, 4 value forms, both use_value_unit) and IndexAsScalar; every object that comes into existence satisfies len(values) == dimension >= 2, size-breaking attempts raise ValueError and leave the source unchanged, ChangingIndex/IndexAsScalar results are compared with db.Convert. Curve states (len image, len domain) are closed under constructor/SetImage/SetDomain with accepted and rejected calls. Fixpoint reached (409 + 10 states).",
+            "element values are abstracted from the state (no size behaviour depends on them)"),
+    "C13": (MC, "explicit-state search over chained operation histories on a pool of real value objects; whole-pool snapshot comparison after every transition",
+            "Every history of length <= 2 (quick) / 3 for alias-prone first steps (thorough) of ~60 operation kinds (arithmetic incl. numbers and ndarrays, six comparisons, conversions, CreateCopy variants, ChangingIndex, IndexAsScalar, ConvertFractionValue, validation, formatting, copy/deepcopy/Copy/pickle) applied to a fresh pool of 18 value objects of every class and container kind plus 11 caller-owned containers; later steps operate on results or operands of earlier ones; after every transition every pool member and container is compared with its snapshot at creation; copies and pickles must be ==.",
+            "operations on disjoint objects commute (shared state is the database: C15); Array/FractionScalar pickling is outside the property"),
 }
 
 NOT_YET = {}
